@@ -78,11 +78,21 @@ def handleOp (o : Op) : String :=
   | _ => "bad-op"
 
 /-- an optional `expect=<published output, spaces written as _>` field turns an op into a known-answer test -/
-def handle (line : String) : String :=
+def handle1 (line : String) : String :=
   let o := parseOp line
   let r := handleOp o
   match o.get? "expect" with
   | none => r
   | some e => if r.replace " " "_" == e then r else s!"kat-mismatch {r}"
+
+/-- `sess ops=<op1>|<op2>|…` (sub-op fields separated by `;`): a session of calls that share arrays and buffers in
+    the harness. The model is a pure function of contents: each sub-op is answered on its own. -/
+def handle (line : String) : String :=
+  let o := parseOp line
+  if o.cmd == "sess" then
+    match o.get? "ops" with
+    | some v => " ## ".intercalate ((v.splitOn "|").map (fun s => handle1 (s.replace ";" " ")))
+    | none => "bad-op"
+  else handle1 line
 
 end XC.C10
